@@ -115,7 +115,7 @@ def audit(prop_module):
     os.remove(aud)
     axioms_seen, discharged = set(), 0
     per = {}
-    for mt in re.finditer(r"'([^']+)' (depends on axioms: \[([^\]]*)\]|does not depend on any axioms)", out):
+    for mt in re.finditer(r"'(\S+)' (depends on axioms: \[([^\]]*)\]|does not depend on any axioms)", out):
         name = mt.group(1)
         axs = set(a.strip() for a in (mt.group(3) or "").replace("\n", " ").split(",") if a.strip())
         per[name] = axs
@@ -153,7 +153,7 @@ def build_driver():
 
 
 # ----------------------------------------------------------------------------- correspondence
-def _run_chunk(exe, lines, env=None, timeout=3600):
+def _run_chunk(exe, lines, env=None, timeout=900):
     p = subprocess.run([exe], input="\n".join(lines) + "\n", stdout=subprocess.PIPE, stderr=subprocess.PIPE,
                        text=True, timeout=timeout, env=env)
     out = p.stdout.split("\n")
@@ -162,7 +162,7 @@ def _run_chunk(exe, lines, env=None, timeout=3600):
     return p.returncode, out, p.stderr
 
 
-def run_ops(exe, ops, jobs=None, env=None, timeout=3600):
+def run_ops(exe, ops, jobs=None, env=None, timeout=900):
     """feed op lines to `exe` in parallel chunks; a chunk whose process dies is re-run op by op"""
     if not ops:
         return []
